@@ -129,9 +129,9 @@ pub struct RefWriter<'a> {
     pub ch: &'a mut Choices,
     out: Vec<u8>,
     base: usize,
-    /// NOT legal PDF, used by C08 only: every object stream of a revision also carries a copy
-    /// (with container-specific content) of one "ghost" object number that no cross-reference
-    /// entry names, so that copies exist for which no container is designated
+    /// NOT legal PDF, used by C08 only: every object stream of a revision also carries one to four
+    /// copies (each with its own content) of one "ghost" object number that no cross-reference
+    /// entry names, so that copies exist for which no container and no index position is designated
     pub ghost_objects: bool,
 }
 
@@ -737,8 +737,14 @@ impl<'a> RefWriter<'a> {
                         }
                         let mut nums = nums;
                         if let Some(g) = ghost {
-                            nums.push(g);
-                            bodies.push(format!("(ghost copy in container {})", sid).into_bytes());
+                            // one to four copies per container, at random index positions: the same number twice in one
+                            // index makes the order in which a single container's entries are stored observable too
+                            let copies = 1 + if self.ch.rng.bool() { self.ch.rng.usize_below(4) } else { 0 };
+                            for c in 0..copies {
+                                let at = self.ch.rng.usize_below(nums.len() + 1);
+                                nums.insert(at, g);
+                                bodies.insert(at, format!("(ghost copy {} in container {})", c, sid).into_bytes());
+                            }
                         }
                         let mut data_part: Vec<u8> = vec![];
                         let mut offs: Vec<usize> = vec![];
